@@ -3136,6 +3136,12 @@ coap_handle_request_put_block(coap_context_t *context,
         coap_delete_bin_const(lg_srcv->last_token);
         lg_srcv->last_token = coap_new_bin_const(pdu->actual_token.s,
                                                  pdu->actual_token.length);
+        if (!lg_srcv->last_token) {
+          coap_add_data(response, sizeof("Memory issue")-1,
+                        (const uint8_t *)"Memory issue");
+          response->code = COAP_RESPONSE_CODE(500);
+          goto free_lg_srcv;
+        }
 
         /*
          * Need to just ACK (no response code) to handle client's NSTART.
